@@ -541,6 +541,7 @@ pub fn check_kill(c: &KillCase) -> Result<KillOutcome, Failure> {
 pub fn run(e: &Engine) {
     e.assume("(a) 'process stop' at a storage call = the action's future is dropped there and the handle closed; (b) real SIGKILLs cover the remaining difference to a true crash; kill instants are not reproducible, the oracle is sound for any instant");
     e.assume("the working set is compared without trailing empty slots");
+    e.set_shrink_iters(200);
     e.campaign(
         "crash-points",
         "generated history on a SQLite replica X (commits with status changes, undo, rebuilds, syncs, interleaved with another replica's synced commits), then for the LAST action every storage-call index x {error, stop} on a copy of the directory; a fresh handle must see exactly the state after the transactions that had committed; evaluations count crash points; non-trivial = the crash point lay inside an uncommitted transaction that would have changed the state",
